@@ -1,7 +1,7 @@
 SPECIFICATION Spec
 CONSTANTS
   Kinds = {"Struct", "Use"}
-  Abis = {"C", "system"}
+  Abis = {"C"}
   BAttrs = {"none", "a"}
   FKinds = {"FFn"}
   FAttrs = {"none"}
